@@ -89,7 +89,7 @@ Shape(c) ==
   /\ Len(c.input) = NVox(c) /\ Len(c.stored) = NVox(c)
   /\ c.map.iu > 0 /\ c.map.ou > 0
   /\ ~c.map.rescale \/ (IsIntType(c.map.dtype) /\ c.map.dtype \in {"uint8", "uint16"}
-                        /\ QLess(c.map.imin, c.map.imax))
+                        /\ c.map.imin # c.map.imax)     \* an inverted window (imin > imax) is a legal, decreasing map
   /\ {c.reads[k] : k \in 1..Len(c.reads)} = ChunkSet(c.cfg.size, c.cfg.chunk)
 
 RunClause(c) ==
